@@ -28,7 +28,7 @@ class Verifier(ExprMixin, CallMixin, Engine):
         self.spec_function_names = set()
         for mod in ("specs.ber", "specs.sess", "specs.ldapmsg"):
             for name, ent in prog.globals.get(mod, {}).items():
-                if ent[0] == "func" and not name.startswith("lemma_"):
+                if ent[0] == "func" and not name.startswith(("lemma_", "thm_")):
                     self.spec_function_names.add(name)
         from .calls import SPEC_PRIMS
         self.spec_function_names |= set(SPEC_PRIMS)
@@ -901,13 +901,13 @@ class Verifier(ExprMixin, CallMixin, Engine):
         # obligations it was meant to help are attempted without it
         for n in ast.walk(e):
             if isinstance(n, ast.Name) and isinstance(n.ctx, ast.Load) and n.id not in p.env and n.id not in p.ghost and n.id not in ("old", "result", "exc", "forall", "exists", "implies", "ite", "len", "True", "False", "None") \
-                    and n.id not in self.spec_function_names and n.id not in SPEC_PRIM_NAMES and not n.id.startswith("lemma_") and self.prog.resolve(module, n.id) is None:
+                    and n.id not in self.spec_function_names and n.id not in SPEC_PRIM_NAMES and not n.id.startswith(("lemma_", "thm_")) and self.prog.resolve(module, n.id) is None:
                 bound_vars = {a.args[0].id for a in ast.walk(e) if isinstance(a, ast.Call) and isinstance(a.func, ast.Name) and a.func.id in ("forall", "exists") and a.args and isinstance(a.args[0], ast.Name)}
                 if n.id in bound_vars:
                     continue
                 self.skipped_hints.add(f"{name}: {hint[:60]} (no local {n.id})")
                 return
-        if isinstance(e, ast.Call) and isinstance(e.func, ast.Name) and e.func.id.startswith("lemma_"):
+        if isinstance(e, ast.Call) and isinstance(e.func, ast.Name) and e.func.id.startswith(("lemma_", "thm_")):
             fi = self.spec_info(e.func.id)
             if fi is None:
                 raise Unsupported(f"unknown lemma {e.func.id}")
